@@ -59,7 +59,8 @@ class _G:
         return self.draw(st.sampled_from(xs))
 
     def chance(self, p):
-        return self.draw(st.floats(0, 1)) < p
+        # uniform index (st.floats / st.integers over-weight boundary values); shrinks towards False
+        return self.draw(st.sampled_from(range(200))) >= 200 * (1 - p)
 
     def small_opts(self):
         """A small pre-set / default options dictionary (nested, overlapping the universe)."""
@@ -92,7 +93,7 @@ class _G:
             node["default"] = {"t": "factory", "v": self.pick(U.HASHABLE_DISPATCH if hashable else U.SCALARS + [[1]])}
         elif r >= 8:
             node["default"] = {"t": "node", "n": self.opt(hashable) if self.chance(0.7) else self.leaf(hashable)}
-        if self.p["domains"] and self.chance(0.12):
+        if self.p["domains"] and self.chance(self.p.get("domain_rate", 0.025)):
             d = self.draw(st.integers(0, 2))
             if d == 0:
                 node["domain"] = {"t": "container", "v": self.draw(st.lists(st.sampled_from(U.HASHABLE_DISPATCH), min_size=1, max_size=5))}
@@ -130,9 +131,9 @@ class _G:
 
     def leaf(self, hashable=False):
         r = self.draw(st.integers(0, 9))
-        if r <= 1:
+        if r == 0:
             return {"k": "val", "v": self.pick(U.HASHABLE_DISPATCH if hashable else U.SCALARS + [[1], ["a", "b"]])}
-        if r <= 3 and self.defs:
+        if r <= 4 and self.defs:
             d = self.pick([d for d in self.defs if not hashable or d["body"] == "first"] or [None])
             if d is not None:
                 return {"k": "ref", "name": d["name"]}
@@ -142,7 +143,7 @@ class _G:
     def node(self, depth, hashable=False, lazy_ok=False):
         if depth <= 0:
             return self.leaf(hashable)
-        kinds = ["leaf", "leaf", "apply", "switch", "switch", "case", "list", "tuple", "with", "ref"]
+        kinds = ["leaf", "apply", "switch", "switch", "case", "list", "tuple", "with", "ref", "ref"]
         if self.p["coalesce"]:
             kinds += ["coalesce", "coalesce"]
         if self.p["binds"]:
@@ -282,7 +283,7 @@ class _G:
                     impl = self.node(1, hashable)
                 ovs.append([alias, impl])
             d["overloads"] = ovs
-            if ovs and self.chance(0.2):
+            if ovs and self.chance(0.12):
                 d["abstract"] = True
         if self.p["presets"] and self.chance(0.3):
             d["options"] = self.small_opts()
@@ -311,6 +312,11 @@ class _G:
             hashable = self.chance(0.25)
             self.defs.append(self.dataset_def(i, hashable))
         root = self.node(self.p["depth"], lazy_ok=self.p["lazy_root"])
+        used = set()
+        walk(root, lambda n: used.add(n.get("name") or n.get("base")) if n["k"] in ("ref", "derived") else None)
+        if not used and self.chance(0.8):
+            # make sure most programs actually reach a dataset
+            root = {"k": "tuple", "items": [root, {"k": "ref", "name": self.defs[-1]["name"]}]}
         return {"defs": self.defs, "root": root}
 
 
